@@ -9,6 +9,74 @@ use solana_zk_sdk::encryption::{
 };
 use std::collections::HashMap;
 
+/// Range proofs blind the bit vectors with two vectors of fresh scalars, s_L and s_R (one draw per entry). With the
+/// witness known (it is, here) the published ipp.a, ipp.b and t_x do not determine them - unless they lie along a
+/// direction an observer can guess (all entries equal, proportional to the bits, to 2^i, to y^i, ...): then ipp.a and
+/// ipp.b fix the two coefficients and t_x = <l(x), r(x)> holds for them only if the guess is right. A prover for which
+/// one of these guesses is right lets the amounts be solved from a single proof (each candidate amount is tested the
+/// same way). Returns the direction pair that fits, if any.
+fn degenerate_masks(w: &str, av: &[&str], b: &[u8]) -> Option<String> {
+    use curve25519_dalek::scalar::Scalar;
+    let amounts: Vec<u64> = av.get(2)?.split(',').filter_map(|x| x.parse().ok()).collect();
+    let bls: Vec<usize> = av.get(3)?.split(',').filter_map(|x| x.parse().ok()).collect();
+    if amounts.len() != bls.len() { return None; }
+    let n: usize = bls.iter().sum();
+    if !n.is_power_of_two() || b.len() < 264 + 7 * 32 + 64 { return None; }
+    let out = op_verify(&[w, &hex(b)]);
+    let tr = out.split(" ~").nth(1)?;
+    let sc = |h: &str| -> Option<Scalar> { Some(Scalar::from_bytes_mod_order(unhex(h)?.try_into().ok()?)) };
+    let (mut y, mut z, mut x, mut us) = (None, None, None, vec![]);
+    for item in tr.split(',') {
+        let (l, v) = item.split_once('=')?;
+        match l { "y" => y = sc(v), "z" => z = sc(v), "x" => x = sc(v), "u" => us.push(sc(v)?), _ => {} }
+    }
+    let (y, z, x) = (y?, z?, x?);
+    let k = n.trailing_zeros() as usize;
+    if us.len() != k { return None; }
+    let fld = |o: usize| -> Option<Scalar> { Some(Scalar::from_bytes_mod_order(b.get(o..o + 32)?.try_into().ok()?)) };
+    let t_x = fld(264 + 128)?;
+    let (ia, ib) = (fld(b.len() - 64)?, fld(b.len() - 32)?);
+    // per index: bit, y^i, z^(2+j)*2^bit-position, folding coefficient e_i (a is folded with e, b with 1/e)
+    let uinv: Vec<Scalar> = us.iter().map(|u| u.invert()).collect();
+    let (mut al, mut yi, mut zz, mut two, mut e) = (vec![], vec![], vec![], vec![], vec![]);
+    let (mut ey, mut ez) = (Scalar::ONE, z * z);
+    for (a, nb) in amounts.iter().zip(bls.iter()) {
+        let mut e2 = Scalar::ONE;
+        for j in 0..*nb {
+            al.push(Scalar::from((a >> j) & 1));
+            yi.push(ey); zz.push(ez * e2); two.push(e2);
+            ey *= y; e2 = e2 + e2;
+        }
+        ez *= z;
+    }
+    for i in 0..n {
+        let mut c = Scalar::ONE;
+        for j in 0..k { c *= if (i >> (k - 1 - j)) & 1 == 0 { us[j] } else { uinv[j] }; }
+        e.push(c);
+    }
+    let einv: Vec<Scalar> = e.iter().map(|c| c.invert()).collect();
+    let ar: Vec<Scalar> = al.iter().map(|a| a - Scalar::ONE).collect();
+    let yinv: Vec<Scalar> = yi.iter().map(|v| v.invert()).collect();
+    let idx: Vec<Scalar> = (0..n).map(|i| Scalar::from(i as u64 + 1)).collect();
+    let ones = vec![Scalar::ONE; n];
+    let dirs: Vec<(&str, &Vec<Scalar>)> = vec![("ones", &ones), ("bits", &al), ("bits-1", &ar), ("2^i", &two), ("y^i", &yi), ("y^-i", &yinv), ("i+1", &idx)];
+    let a0: Scalar = (0..n).map(|i| e[i] * (al[i] - z)).sum();
+    let b0: Scalar = (0..n).map(|i| einv[i] * (yi[i] * (ar[i] + z) + zz[i])).sum();
+    for (nu, u) in dirs.iter() {
+        let eu: Scalar = (0..n).map(|i| e[i] * u[i]).sum::<Scalar>() * x;
+        if eu == Scalar::ZERO { continue; }
+        let sl = (ia - a0) * eu.invert();
+        for (nv, v) in dirs.iter() {
+            let ev: Scalar = (0..n).map(|i| einv[i] * yi[i] * v[i]).sum::<Scalar>() * x;
+            if ev == Scalar::ZERO { continue; }
+            let sr = (ib - b0) * ev.invert();
+            let t: Scalar = (0..n).map(|i| (al[i] - z + sl * u[i] * x) * (yi[i] * (ar[i] + z + sr * v[i] * x) + zz[i])).sum();
+            if t == t_x { return Some(format!("degenerate-mask-vectors:{}/{}", nu, nv)); }
+        }
+    }
+    None
+}
+
 /// offsets (relative to the start of the proof) of the fields that must be fresh on every call
 fn fresh_fields(instr: &str) -> Vec<usize> {
     match instr {
@@ -188,6 +256,7 @@ fn sample(what: &str, args: &[&str], first: bool) -> Result<Vec<(String, Vec<u8>
                 let mut av = vec![&w[5..]];
                 av.extend(args.iter());
                 let Some(Ok(b)) = crate::range::construct(&av) else { return Err("bad-op".into()) };
+                if let Some(leak) = degenerate_masks(w, &av, &b) { return Err(leak); }
                 fresh_fields(w).iter().map(|o| (format!("proof+{}", o), b[264 + o..264 + o + 32].to_vec())).collect()
             }
             instr => {
